@@ -140,17 +140,36 @@ def lean_obligations(prop):
                 problems.append("translator: " + pr)
         except Exception as e:  # the translator could not read the source: the obligation is not established
             problems.append(f"translator failed on the current source: {e!r}")
+    if any(re.search(r"\.T0\d$", m) for m in mods):
+        # translator tie for the pure helper code: Generated/Pure*.lean are regenerated from /repo's CURRENT source and the
+        # theorems of Props/T01..T05 re-proved against them
+        try:
+            import rust2lean
+            pinfo = rust2lean.regenerate()
+            TRANSLATOR_INFO["pure"] = {k: v for k, v in pinfo.items() if k != "problems"}
+            for pr in pinfo["problems"]:
+                problems.append("translator (pure helpers): " + pr)
+        except Exception as e:
+            problems.append(f"translator (pure helpers) failed on the current source: {e!r}")
     ok, out, dt = lake_build(mods + ["driver"])
     obligations = []
     if not ok:
         errs = [l for l in out.splitlines() if "error" in l][:8]
         problems.append("lake build failed: " + " | ".join(errs))
+    mod_ok = {m: ok for m in mods}
+    if not ok:
+        # which modules still build?  (a broken translator tie must not hide that the other theorems still check)
+        for m in mods:
+            mod_ok[m] = lake_build([m])[0]
+        mod_ok["driver"] = lake_build(["driver"])[0]
+        if not mod_ok["driver"]:
+            mod_ok = {m: False for m in mods}
     for mod in mods:
         try:
             names = theorems_of(mod)
         except FileNotFoundError:
             problems.append(f"missing module {mod}"); continue
-        if ok:
+        if mod_ok[mod]:
             res = audit(mod, names)
         else:
             res = {n: (False, ["<build failed>"]) for n in names}
@@ -189,6 +208,8 @@ def setup():
     try:
         import static_scopes
         static_scopes.regenerate()
+        import rust2lean
+        rust2lean.regenerate()
     except Exception as e:
         print("SETUP: translator failed:", e)
     ok, out, _ = lake_build(["Cachelito", "driver"] + sorted({m for p in PROPS.values() for m in p["lean_modules"]}))
@@ -604,7 +625,7 @@ def decide(prop, tier, seed):
 
     # evidence
     n_obl = len(obligations)
-    n_dis = sum(1 for o in obligations if o["discharged"]) if not [p for p in oproblems if "forbidden" in p or "lake build" in p] else 0
+    n_dis = sum(1 for o in obligations if o["discharged"]) if not [p for p in oproblems if "forbidden" in p] else 0
     cov = {
         "obligations": n_obl,
         "discharged": n_dis,
@@ -617,7 +638,12 @@ def decide(prop, tier, seed):
         "lean_build_s": round(lean_dt, 1),
     }
     if TRANSLATOR_INFO:
-        cov["translator"] = dict(TRANSLATOR_INFO, what="checklib/static_scopes.py regenerated lean/Cachelito/Cachelito/Generated/{LockNesting,BorrowNesting}.lean from /repo's current source before the build; the C17s / C16s theorems were checked against it")
+        what = []
+        if any(k != "pure" for k in TRANSLATOR_INFO):
+            what.append("checklib/static_scopes.py regenerated lean/Cachelito/Cachelito/Generated/{LockNesting,BorrowNesting}.lean from /repo's current source before the build; the C17s / C16s theorems were checked against it")
+        if "pure" in TRANSLATOR_INFO:
+            what.append("checklib/rust2lean.py regenerated lean/Cachelito/Cachelito/Generated/Pure{Mem,Utils,Entry,Stats,Policy}.lean (shallow translation of memory_estimator.rs, utils.rs, cache_entry.rs, stats.rs, eviction_policy.rs) from /repo's current source before the build; the theorems of Props/T01..T05 (translated function = model definition) were re-proved against it")
+        cov["translator"] = dict(TRANSLATOR_INFO, what="; ".join(what))
     evaluations = 0
     validated = 0
     nontrivial = 0
